@@ -332,7 +332,9 @@ class TGen:
                     self.recursive_sigs.add((name, tuple(pts)))
                 self.sigs.append((name, pts))
             for name, pts, ret, recursive in planned:
-                fn = self.function(name, [(t, "p%d" % j) for j, t in enumerate(pts)], ret, genv, False, recursive)
+                # a helper whose name is not overloaded may be exported too: calls from NSL code to exported functions (recursive ones included)
+                exp = sum(1 for f in planned if f[0] == name) == 1 and r.random() < 0.3
+                fn = self.function(name, [(t, "p%d" % j) for j, t in enumerate(pts)], ret, genv, exp, recursive)
                 self.funcs.append((name, pts, ret))
                 helpers.append(fn)
         # avoid ambiguous calls: drop overloads that differ only by int/float when an int argument could match both
@@ -345,6 +347,8 @@ class TGen:
             fn = self.function("f%d" % k, [(t, "x%d" % j) for j, t in enumerate(pts)], ret, genv, True)
             items.append(fn)
             exported.append(("f%d" % k, [(t, "x%d" % j) for j, t in enumerate(pts)]))
+            if self.o["calls"] and pts:
+                self.funcs.append(("f%d" % k, pts, ret)); self.sigs.append(("f%d" % k, pts))     # a later exported function may call this one
         return Module(items), exported, globs
 
     def value(self, t, dims=None):
